@@ -1,5 +1,6 @@
 import PttVerif.Common
 import PttVerif.Gen.Money
+import PttVerif.Gen.Reg
 /-
 C20 — model of the user balance:
   cache/cache_money.go : SetUMoney, DeUMoney, MoneyOf
@@ -197,6 +198,35 @@ def setUserPerm (s : State) (uid : Int) (rec : List Nat) (perm : Nat) : State ×
   | .ok .none => (r.1, .ok (Int.ofNat perm, .none))
   | .ok e => (r.1, .ok (0, e))
 
+/-! ### registration: the last steps of `ptt.SetupNewUser` (after the slot `uid` was chosen and `SetUserID` done)
+
+The ORDER of the calls is the one the translator read from the source (`Gen/Reg.lean`); `user.Money` is a field
+of the caller's record, so the assignment `user.Money = MoneyOf(uid)` inside `passwdSyncUpdate` is visible to a
+`SetUMoney(uid, user.Money)` that comes after it. -/
+
+/-- the calls of `SetupNewUser` that follow `cache.SetUserID`. -/
+def regOrder : List String := (Gen.Reg.setupNewUserCalls.dropWhile (· != "setUserID")).drop 1
+
+/-- run the calls in order; `m` is the current `user.Money`, `rec` the serialised `*user`. -/
+def regTail : List String → State → Int → List Nat → Int → State × M Err
+  | [], s, _, _, _ => (s, .ok .none)
+  | c :: cs, s, uid, rec, m =>
+      if c = "setMoney" then
+        -- `_, _ = cache.SetUMoney(uid, user.Money)`: value and error dropped
+        let r := setUMoney s uid m
+        match r.2 with
+        | .error e => (r.1, .error e)
+        | .ok _ => regTail cs r.1 uid rec m
+      else if c = "writeRecord" then
+        -- `err = passwdSyncUpdate(uid, user); if err != nil { return err }`
+        if !uidIsValid uid then (s, .ok .invalidUID)
+        else match moneyOf s uid with
+          | .error e => (s, .error e)
+          | .ok v =>
+              let r := passwdUpdate s uid (recSetMoney rec v)
+              if r.2 ≠ .none then (r.1, .ok r.2) else regTail cs r.1 uid (recSetMoney rec v) v
+      else regTail cs s uid rec m        -- calls that touch neither the balance nor .PASSWDS
+
 /-! ### operations and histories -/
 
 inductive Op where
@@ -207,6 +237,9 @@ inductive Op where
   | sync (uid : Int) (rec : List Nat) (perm : Nat)
   /-- `passwdSyncQuery` (through `ptt.GetUser`): a read. -/
   | load (uid : Int)
+  /-- the money / record part of an accepted `ptt.SetupNewUser` that was given slot `uid`: `rec` is the
+  registration record, `money` its `Money`. -/
+  | newuser (uid : Int) (rec : List Nat) (money : Int)
   deriving Repr, DecidableEq
 
 /-- what an operation answers: `(value, error class)` or a Go panic. -/
@@ -223,6 +256,9 @@ def step (s : State) : Op → State × Ans
       (s, match passwdQuery s u with
           | .error e => .ok (0, e)
           | .ok _ => (moneyOf s u).map fun v => (v, Err.none))
+  | .newuser u rec m =>
+      let r := regTail regOrder s u rec m
+      (r.1, r.2.map fun e => ((0 : Int), e))        -- `SetupNewUser` answers an error only
 
 def run (s : State) : List Op → State
   | [] => s
@@ -247,6 +283,7 @@ def specStep (b : Bal) : Op → Bal
   | .get _ => b
   | .sync _ _ _ => b
   | .load _ => b
+  | .newuser u _ m => if Valid u then upd b u m else b    -- the new account starts with its own balance
 
 def specRun (b : Bal) : List Op → Bal
   | [] => b
@@ -260,10 +297,18 @@ def NoOverflow (b : Bal) : Op → Prop
   | .get _ => True
   | .sync _ rec perm => rec.length = Gen.Money.recSize ∧ perm < 4294967296   -- a UserecRaw value and a uint32
   | .load _ => True
+  | .newuser _ rec m => Int32 m ∧ rec.length = Gen.Money.recSize
+
+/-- operations that write a whole record. -/
+def recWrite : Op → Bool
+  | .sync _ _ _ => true
+  | .newuser _ _ _ => true
+  | _ => false
 
 /-- the record handed to a whole-record write is a serialised `UserecRaw` (always `recSize` bytes in Go). -/
 def RecOK : Op → Prop
   | .sync _ rec _ => rec.length = Gen.Money.recSize
+  | .newuser _ rec _ => rec.length = Gen.Money.recSize
   | _ => True
 
 def NoOverflowRun (b : Bal) : List Op → Prop
